@@ -116,6 +116,13 @@ int parity_chsize(struct snapraid_parity_handle* handle, struct snapraid_parity*
 void parity_size(struct snapraid_parity_handle* handle, data_off_t* out_size);
 
 /**
+ * Check if the parity block at the specified position is really stored in the parity files.
+ *
+ * It isn't if the file containing it was truncated or lost, even if the expected size covers it.
+ */
+int parity_is_stored(struct snapraid_parity_handle* handle, block_off_t pos, uint32_t block_size);
+
+/**
  * Open an already existing parity file.
  */
 int parity_open(struct snapraid_parity_handle* handle, const struct snapraid_parity* parity, unsigned level, int mode, uint32_t block_size, data_off_t limit_size);
